@@ -452,7 +452,7 @@ func decodeKeyByBitmapUint8Stream(d *structDecoder, s *Stream) (*structFieldSet,
 					if err != nil {
 						return nil, "", err
 					}
-					cursor = s.cursor
+					_, cursor, p = s.stat()
 					for _, c := range chars {
 						curBit &= bitmap[keyIdx][largeToSmallTable[c]]
 						if curBit == 0 {
@@ -539,7 +539,7 @@ func decodeKeyByBitmapUint16Stream(d *structDecoder, s *Stream) (*structFieldSet
 					if err != nil {
 						return nil, "", err
 					}
-					cursor = s.cursor
+					_, cursor, p = s.stat()
 					for _, c := range chars {
 						curBit &= bitmap[keyIdx][largeToSmallTable[c]]
 						if curBit == 0 {
@@ -565,31 +565,29 @@ func decodeKeyByBitmapUint16Stream(d *structDecoder, s *Stream) (*structFieldSet
 }
 
 // decode from '\uXXXX'
+// decodeKeyCharByUnicodeRuneStream decodes the four hex digits at s.cursor (and a low
+// surrogate escape that follows a high surrogate), refilling the buffer as often as
+// needed, and leaves s.cursor on the last byte consumed.
 func decodeKeyCharByUnicodeRuneStream(s *Stream) ([]byte, error) {
-	const defaultOffset = 4
-	const surrogateOffset = 6
+	const defaultOffset = 4    // XXXX
+	const surrogateOffset = 10 // XXXX\uXXXX
 
-	if s.cursor+defaultOffset >= s.length {
-		if !s.read() {
-			return nil, errors.ErrInvalidCharacter(s.char(), "escaped unicode char", s.totalOffset())
-		}
+	p := s.bufptr()
+	if !readAtLeast(s, defaultOffset, &p) {
+		return nil, errors.ErrInvalidCharacter(s.char(), "escaped unicode char", s.totalOffset())
 	}
 
 	r := unicodeToRune(s.buf[s.cursor : s.cursor+defaultOffset])
 	if utf16.IsSurrogate(r) {
-		s.cursor += defaultOffset
-		if s.cursor+surrogateOffset >= s.length {
-			s.read()
-		}
-		if s.cursor+surrogateOffset >= s.length || s.buf[s.cursor] != '\\' || s.buf[s.cursor+1] != 'u' {
+		if !readAtLeast(s, surrogateOffset, &p) || s.buf[s.cursor+defaultOffset] != '\\' || s.buf[s.cursor+defaultOffset+1] != 'u' {
+			// lone surrogate: only the four hex digits are consumed
 			s.cursor += defaultOffset - 1
 			return []byte(string(unicode.ReplacementChar)), nil
 		}
 		r2 := unicodeToRune(s.buf[s.cursor+defaultOffset+2 : s.cursor+surrogateOffset])
-		if r := utf16.DecodeRune(r, r2); r != unicode.ReplacementChar {
-			s.cursor += defaultOffset - 1
-			return []byte(string(r)), nil
-		}
+		s.cursor += surrogateOffset - 1
+		// an invalid pair decodes to U+FFFD, as in buffer mode
+		return []byte(string(utf16.DecodeRune(r, r2))), nil
 	}
 	s.cursor += defaultOffset - 1
 	return []byte(string(r)), nil
